@@ -452,6 +452,15 @@ def render_comment_lines(c):
 
     for line in c.overview or []:
         lines.append((c.indent + comp(line)) if line else "")
+    def see_lines():
+        blanks = getattr(c, "see_blank_after", None) or []
+        for i, link in enumerate(c.see):
+            lines.append(c.indent + "@see " + link.spelling)
+            # empty '///' lines after a see tag (a separator before the next tag, or the end of the comment) change nothing
+            lines.extend([""] * (blanks[i] if i < len(blanks) else 0))
+
+    if getattr(c, "see_first", False):
+        see_lines()
     for ident, msg in c.params:
         first = msg[0] if msg else None
         lines.append(c.indent + "@param " + ident + (": " + comp(first) if first is not None else ""))
@@ -462,8 +471,8 @@ def render_comment_lines(c):
         lines.append(c.indent + "@returns" + (" " + ident if ident else "") + (": " + comp(first) if first is not None else ""))
         for more in msg[1:]:
             lines.append((c.indent + "    " + comp(more)) if more else "")
-    for link in c.see:
-        lines.append(c.indent + "@see " + link.spelling)
+    if not getattr(c, "see_first", False):
+        see_lines()
     return lines
 
 
